@@ -8,7 +8,8 @@ def netCfg : NetCfg :=
     rfind := Gen.C09.netUsesRfind
     unpack := Gen.C09.netUnpack
     output := Gen.C09.netOutput
-    stripSet := Gen.C09.netNameStrip }
+    stripSet := Gen.C09.netNameStrip
+    univNl := Gen.C09.textUniversalNewlines }
 
 def diskCfg : DiskCfg :=
   { branches := Gen.C09.diskBranches.map fun b =>
@@ -21,7 +22,8 @@ def diskCfg : DiskCfg :=
     sector := Gen.C09.diskSectorSize
     skipPartitions := Gen.C09.diskSkipsPartitionsForTotal
     slashFrom := Gen.C09.storageReplace.1
-    slashTo := Gen.C09.storageReplace.2 }
+    slashTo := Gen.C09.storageReplace.2
+    univNl := Gen.C09.textUniversalNewlines }
 
 /-- `"{}"` / `"None"` as written in the source → the value returned -/
 def emptyOf (s : String) : Out :=
